@@ -52,8 +52,14 @@ CHECKS = {
    text="A hostile client inside a live session: after a generated update history has built a state, valid SELECTs, every update form, legacy aliases and seeded mutations of them (multi-byte characters at token boundaries, truncation, unbalanced quotes/braces, NULs, long tokens) are sent through six entry points; after every request the stored quad ids and catalog must be unchanged on query paths, update syntax refused there, failed updates leave the dataset unchanged, and no entry point may unwind (each request runs under catch_unwind; aborts are caught by the process supervisor).",
    note="Seeded request mutation inside a stateful session; extension statements (ML/RULE/REGISTER) are not in the corpus.",
    technique="deterministic simulation: hostile-client request injection into a stateful session with whole-state invariants after every request"),
+
+ "C13": dict(engine="dbsim-load", level="exploration", ref="6.11",
+   text="Seeded abstract triple lists rendered to N-Triples, N-Quads, line-oriented Turtle, N3 and RDF/XML with sizes at and around the internal chunk boundaries (999..2500 lines, 8191..8193 triples), comment/blank lines at PRNG-chosen positions, loaded into empty or pre-populated databases (quads, named graphs, pre-filled dictionary), optionally twice, under a simulated rayon pool (size/splits/job order), a simulated CPU count and - for parse_rdf - crossbeam workers running as shuttle threads under a seeded scheduler. Oracle: lexical quads after = before + document triples; catalog unchanged; formats agree.",
+   note="'As written' = Kolibrie's storage convention as N-Triples/N-Quads/RDF-XML apply it; N3 literals are a listed known finding and the N3 rendering replaces literal objects by IRIs outside 1 run in 10; RDF/XML uses the rdf:Description subset.",
+   technique="deterministic simulation: simulated thread pool, shuttle-scheduled loader workers, simulated CPU count; quad-set oracle"),
 }
 ENGINES = [
+  {"name": "dbsim-load", "path": "sim/ksim-db/src/loader.rs", "serves_properties": ["C13"], "kind_free_text": "document loader simulator (sim-rayon, sim-crossbeam on shuttle, sysconf interposer)"},
   {"name": "dbsim-update", "path": "sim/ksim-db/src/update.rs", "serves_properties": ["C03", "C17"], "kind_free_text": "update-history simulator with reference Update model; hostile-client session simulator"},
   {"name": "dbsim-store", "path": "sim/ksim-db/src/store.rs", "serves_properties": ["C04"], "kind_free_text": "store-API history simulator"},
   {"name": "dbsim-dict", "path": "sim/ksim-db/src/dict.rs", "serves_properties": ["C15"], "kind_free_text": "dictionary / union history simulator"},
